@@ -22,11 +22,13 @@ type C09Case struct {
 	Rows   int       `json:"rows"`             // TotalRows of a fresh forest (ignored when Prefix is set: NewMapPollardFromRoots uses 63)
 	Prefix []Block   `json:"prefix,omitempty"` // history applied to the model only; the forest then starts from its bare roots
 	Steps  []C09Step `json:"steps"`
+	Ext    bool      `json:"ext,omitempty"` // the forest runs on caller-supplied stores (see Cfg.Ext)
 }
 
 func genC09(t *rapid.T) C09Case {
 	lim := genLimits(t)
 	c := C09Case{Rows: rapid.SampledFrom([]int{0, 0, 1, 2, 3, 4, 5, 7, 63, 63}).Draw(t, "rows")}
+	c.Ext = rapid.IntRange(0, 3).Draw(t, "ext") == 0
 	f := &model.Forest{}
 	if rapid.IntRange(0, 2).Draw(t, "fromroots") == 0 {
 		n := rapid.IntRange(1, 6).Draw(t, "nprefix")
@@ -168,10 +170,13 @@ func runC09(c C09Case) *Result {
 		}
 		v := f.View()
 		m := u.NewMapPollardFromRoots(cloneHashes(v.Roots), v.N, false)
-		in = &Inst{Cfg: Cfg{Kind: "map", Rows: 63}, M: &m}
+		if c.Ext {
+			extStores(&m)
+		}
+		in = &Inst{Cfg: Cfg{Kind: "map", Rows: 63, Ext: c.Ext}, M: &m}
 		res.class("start:from-roots")
 	} else {
-		in = newInst(Cfg{Kind: "map", Rows: c.Rows})
+		in = newInst(Cfg{Kind: "map", Rows: c.Rows, Ext: c.Ext})
 		res.class(fmt.Sprintf("start:fresh-rows=%d", c.Rows))
 	}
 	tracked := map[int]bool{}
